@@ -41,6 +41,10 @@ CORPUS = os.path.join(C.ROOT, 'corpus', 'c20')
 RESERVED = ('_name', '_dict', '_help', '_tex', '_alt')
 
 _STATE = {}
+# exceptions raised by the CONSUMERS of a config value during construction (np.random.seed, int()/float() in a
+# model class), not by the configuration machinery: counted, not compared with the model
+CONSUMER_ERRORS = (r'invalid literal for int|could not convert string to float|argument must be a string or a|'
+                   r'Seed must be between|cannot convert float|Cannot cast|cannot be interpreted as an integer')
 
 
 # ---------------------------------------------------------------- values and encodings
@@ -482,7 +486,16 @@ def run_real(case, work):
     except Exception as e:  # noqa
         obs['save_err'] = err_enum(e)
         return obs
-    _, sects = read_rc(out)
+    obs['stale'] = {}
+    for s in sections:
+        c = cfg_of(ss, s)
+        obs['stale'][s] = {k for k, v in c.__dict__.items() if k not in RESERVED and not k.startswith('_') and
+                           (k not in c._dict or not same_val(c._dict[k], v))}
+    try:
+        _, sects = read_rc(out)
+    except configparser.Error as e:
+        obs['save_err'] = ('Unreadable-' + type(e).__name__, '')    # the file save_config wrote cannot be parsed
+        return obs
     saved = [(s, kvs) for s, kvs in sects if s in sections]
     so = save_order(sections)
     saved.sort(key=lambda p: so.index(p[0]))
@@ -762,7 +775,7 @@ def oracle(case, obs):
         else:
             odd = [(sk, v) for sk, (src, v) in expected.items() if src != 'default' and
                    not is_string_field(decls[sk[0]], sk[1]) and type(v) not in (int, float)]
-            if not odd:    # otherwise: a non-number given for a numeric field was refused by the model class itself
+            if not odd and not re.search(CONSUMER_ERRORS, cerr[1]):    # otherwise: a non-number given for a numeric field was refused by the model class itself
                 bad.append(('construct-exception:' + kind, 'construction raised %s %s' % cerr))
         return bad
 
@@ -818,8 +831,12 @@ def oracle(case, obs):
             txt = saved.get(s, {}).get(k.lower())
             if k.startswith('_'):
                 key = 'roundtrip-private-key-dropped'
-            elif txt != str(v).strip():
+            elif k in obs['stale'][s]:
                 key = 'save-stale-cache'
+            elif txt is None and k == k.lower():
+                key = 'save-field-missing'
+            elif txt != str(v).strip():
+                key = 'save-text-differs'
             elif type(v) is bool:
                 key = 'roundtrip-bool-becomes-string'
             elif type(v) is str and v != v.strip():
@@ -889,7 +906,8 @@ def check_cases(ctx, cases, work):
             ctx.count('full_roundtrip')
         if obs.get('S', '-') != '-':
             ctx.count('update_raised')
-        if obs.get('construct_err', ('',))[0].startswith('Other-'):
+        ce = obs.get('construct_err', ('', ''))
+        if ce[0] in ('Other-ValueError', 'Other-TypeError') and re.search(CONSUMER_ERRORS, ce[1]):
             ctx.count('out_of_model_exception')      # raised by a model class that uses the value, not by Config
         elif empty_key(case):
             # an empty field name is written as a continuation line by configparser.write: file syntax, not modelled
@@ -996,9 +1014,9 @@ def run(ctx):
         ctx.cov['config_fields'] = sum(len(d['defaults']) for d in decls.values())
         cases = corpus_cases()
         ctx.count('corpus', len(cases))
-        cases += [gen_case(ctx.rng) for _ in range(ctx.n(500, 5000))]
+        cases += [gen_case(ctx.rng) for _ in range(ctx.n(260, 3000))]
         check_cases(ctx, cases, work)
-        check_numerals(ctx, ctx.n(3000, 30000))
+        check_numerals(ctx, ctx.n(2000, 30000))
         check_paths(ctx, work)
         ctx.cov['source_hashes'] = {
             f: C.hash_source(C.REPO + p, f) for p, f in [
